@@ -346,7 +346,7 @@ class Interp:
                 v, t = args[0], e.args[1]
                 names = [norm(x) for x in t.elts] if isinstance(t, ast.Tuple) else [norm(t)]
                 if isinstance(v, Obj):
-                    return v.cls in names
+                    return v.cls in names or any(b_ in names for b_ in v.attrs.get("@bases", ()))
                 pym = {"int": int, "str": str, "bool": bool, "list": list, "tuple": tuple, "dict": dict, "bytes": bytes, "float": float, "bytearray": bytearray, "Sequence": (list, tuple), "BaseTag": int, "MutableSequence": list}
                 return any(isinstance(v, pym[x]) for x in names if x in pym)
             if n in self.globals and callable(self.globals[n]):
